@@ -420,7 +420,7 @@ def k3_iterators(res, tier):
             e.path_state['casts'] = []
             me = Struct(struct, None, NameBacking('iterator_self')) if sds and sds[0].fields else Struct(struct, {}, None)
             rt = e.path_state['rooting'] = Rooting()
-            rt.list_growth_protects = protects_fact[0]
+            rt.list_growth_protects = list_growth_protects(P)[0]
             r = e.call(f, [Ref(Cell(me)), Ref(Cell(Opaque('Hooks', 'hooks')))])
             rt.finish(e, r)
             e.check(True, f'{struct}: rooting automaton ran to the end of the activation')
